@@ -167,7 +167,7 @@ impl<P: Prop> DynProp for P {
                             if let Some(sig) = is_known(&known, id, &fail.signature) {
                                 *e.known_hits.entry(sig).or_insert(0) += 1;
                             } else {
-                                res.violations.push(Violation { signature: fail.signature, detail: fail.detail, replay: f.clone() });
+                                res.violations.push(Violation { signature: fail.signature, detail: fail.detail, replay: f.clone(), decisive: true });
                             }
                         }
                     }
@@ -195,7 +195,7 @@ impl<P: Prop> DynProp for P {
                 } else {
                     nviol += 1;
                     let path = write_replay(id, &format!("s{}-sh{}-e{}", ctx.seed, ctx.shard, nviol), &case, &fail);
-                    res.violations.push(Violation { signature: fail.signature, detail: fail.detail, replay: path });
+                    res.violations.push(Violation { decisive: fail.decisive, signature: fail.signature, detail: fail.detail, replay: path });
                 }
             }
         }
@@ -232,12 +232,14 @@ impl<P: Prop> DynProp for P {
                             return Ok(());
                         }
                         // shrinking must stay on the same failure class
-                        if let Some(ff) = first_fail.borrow().as_ref() {
-                            if ff.signature != fail.signature {
-                                return Ok(());
+                        let first_sig = first_fail.borrow().as_ref().map(|f| f.signature.clone());
+                        match first_sig {
+                            Some(sig) => {
+                                if sig != fail.signature {
+                                    return Ok(());
+                                }
                             }
-                        } else {
-                            *first_fail.borrow_mut() = Some(fail.clone());
+                            None => *first_fail.borrow_mut() = Some(fail.clone()),
                         }
                         e.frozen = true;
                         *last_fail.borrow_mut() = Some(fail.clone());
@@ -247,17 +249,17 @@ impl<P: Prop> DynProp for P {
             });
             match result {
                 Ok(()) => {}
-                Err(TestError::Fail(_, minimal)) => {
+                Err(TestError::Fail(reason, minimal)) => {
                     // re-run the minimal case once to get its own detail text
                     let mut scratch = Ev::default();
                     scratch.frozen = true;
                     let fail = match checked_with_guard(self, ctx, &minimal, &mut scratch) {
                         Err(f) => f,
-                        Ok(()) => last_fail.borrow().clone().unwrap_or(Fail::new("unstable", "minimal case passed when re-run".into())),
+                        Ok(()) => last_fail.borrow().clone().unwrap_or(Fail::new("unstable", format!("minimal case passed when re-run; proptest reason: {}", reason))),
                     };
                     nviol += 1;
                     let path = write_replay(id, &format!("s{}-sh{}-g{}", ctx.seed, ctx.shard, nviol), &minimal, &fail);
-                    res.violations.push(Violation { signature: fail.signature, detail: fail.detail, replay: path });
+                    res.violations.push(Violation { decisive: fail.decisive, signature: fail.signature, detail: fail.detail, replay: path });
                 }
                 Err(TestError::Abort(reason)) => {
                     res.harness_errors.push(format!("proptest aborted: {}", reason));
@@ -366,6 +368,7 @@ impl<P: Prop> DynProp for P {
                 let _ = std::fs::copy(&inflight_path, &dest);
                 if (is_hang && self.hang_is_violation()) || (!is_hang && self.death_is_violation()) {
                     violations.push(Violation {
+                        decisive: true,
                         signature: if is_hang { "hang".into() } else { "crash".into() },
                         detail: format!("shard {} {:?} while executing this case", sh, oc),
                         replay: dest,
@@ -420,13 +423,13 @@ impl<P: Prop> DynProp for P {
         let (post_fails, post_extra) = self.post_merge(tier, &outdir, nshards);
         for (i, f) in post_fails.into_iter().enumerate() {
             let path = write_replay(id, &format!("s{}-post{}", seed, i), &json!(null), &f);
-            violations.push(Violation { signature: f.signature, detail: f.detail, replay: path });
+            violations.push(Violation { decisive: true, signature: f.signature, detail: f.detail, replay: path });
         }
 
         // confirm wall-clock dependent failures from a fresh process
         let mut confirmed: Vec<Violation> = Vec::new();
         for v in violations {
-            if self.confirm_in_fresh_process() && v.signature != "hang" && v.signature != "crash" {
+            if self.confirm_in_fresh_process() && !v.decisive {
                 let mut still = 0;
                 for _ in 0..2 {
                     let st = std::process::Command::new(&exe)
